@@ -62,8 +62,8 @@ SITES = {"shift_pf_nonatomic": "pseudo-shift-unparenthesized", "if_noelse_then_i
 
 
 # a failure is attributed to one of those sites only when it also shows the signature that defect had
-SIGNATURE = {"equation-meaning": ["shift_pf_nonatomic"], "equation-evaluation-raises": ["shifted_shock"],
-             "source-rejected": ["curly_after_paren_ctl", "if_noelse_then_ifelse"]}
+# (the four defects are repaired in /repo: nothing is attributed to their sites any more, the table is kept for the record)
+SIGNATURE = {}
 
 
 def site_for(features, default):
@@ -148,6 +148,9 @@ def check_model_case(ctx: Ctx, case, model_reply, value_site="equation-meaning")
             try:
                 if exact:
                     row.append(("D", L.ev_eqn(eqn, data, t, subs, sh, True), 0.0))
+                elif all(L.float_exact_tree(p_, subs) for p_ in eqn[1:]) and (eqn[0] == "bare" or not L.additive_top(eqn[2])):
+                    # same IEEE operations in the same order on both sides: the doubles must be identical
+                    row.append(("F", L.ev_eqn(eqn, data, t, subs, sh, False), L.eqn_scale(eqn, data, t, subs, sh)))
                 else:
                     row.append(("T", L.ev_eqn(eqn, data, t, subs, sh, False), L.eqn_scale(eqn, data, t, subs, sh)))
             except (L.NotExact, ZeroDivisionError, OverflowError, ValueError):
@@ -199,7 +202,8 @@ def check_model_case(ctx: Ctx, case, model_reply, value_site="equation-meaning")
                 if cls == "skip" or not math.isfinite(g) and cls == "T" and not math.isfinite(w):
                     ctx.count("value-skipped")
                     continue
-                ok = (Fraction(g) == w) if (cls == "D" and math.isfinite(g)) else (cls == "T" and abs(g - w) <= 1e-9 * scale)
+                ok = (Fraction(g) == w) if (cls == "D" and math.isfinite(g)) else (cls == "T" and abs(g - w) <= 1e-9 * scale) \
+                    or (cls == "F" and (g == w or (g != g and w != w)))
                 ctx.count("class-" + cls)
                 if not ok:
                     ctx.fail(site_for(features, value_site), dict(payload, equation=i, version=ver),
@@ -671,6 +675,86 @@ def run_functions_stream(ctx: Ctx, reps: int):
 
 
 # ---------------------------------------------------------------------------------------
+# the `context-values` stream: values that reach the equation text through `<...>`
+# ---------------------------------------------------------------------------------------
+
+CONTEXT_FLOATS = [math.exp(-0.2), 1 / 3, 1234.56789, math.pi * 1e-7, 6.02214076e23, 2.5e-11, 0.1 + 0.2, 2 / 3, 1e6 / 7, 0.95 ** 0.25,
+                  123456.789e3, 1 - 1e-9, 7.0, 1e16, 1.5e-5, 0.30102999566398120, 9007199254740993.0, 5e-324 * 2 ** 60, 0.5, 17.25]
+
+
+def gen_context_case(rng: Rng):
+    """x = <expression over names and constants that come from `<...>`>: a float of the context, an arithmetic expression
+    inside the brackets, an element of a tuple, a numpy scalar, a tuple spliced into a call"""
+    decls = [["tv", "x", ""], ["tv", "y", ""], ["par", "a", ""], ["exo", "z", ""]]
+    floats, tuples = {}, {}
+
+    def cnum():
+        c = rng.weighted([("name", 4), ("expr", 2), ("lit", 2), ("elem", 2)])
+        v = rng.choice(CONTEXT_FLOATS)
+        if rng.chance(0.2):
+            v = rng.random() * 10 ** rng.randint(-9, 9)
+        if c == "name":
+            key = f"c{len(floats)}"; floats[key] = v.hex(); return ["cnum", key, v.hex()]
+        if c == "expr":
+            key = f"c{len(floats)}"; floats[key] = v.hex()
+            form = rng.choice(["2*{k}", "{k}/3", "{k}**2", "1-{k}", "{k}*{k}/7"])
+            val = eval(form.format(k=repr(v)))
+            return ["cnum", form.format(k=key), float(val).hex()]
+        if c == "lit":
+            n, d = rng.randint(1, 99), rng.choice([3, 7, 9, 11, 13, 17, 300, 7e5])
+            return ["cnum", f"{n}/{d!r}", float(n / d).hex()]
+        key = f"t{len(tuples)}"
+        vals = [rng.choice(CONTEXT_FLOATS) for _ in range(rng.randint(2, 4))]
+        tuples[key] = [x.hex() for x in vals]
+        i = rng.randint(0, len(vals) - 1)
+        return ["cnum", f"{key}[{i}]", vals[i].hex()]
+
+    def name():
+        return ["name", rng.choice(["x", "y", "a", "z"]), rng.choice([0, 0, -1, 1, -2])]
+
+    def tup():
+        f, n = rng.choice([("avg2", 2), ("maximum", 2), ("minimum", 2), ("mix3", 3)])
+        key = f"t{len(tuples)}"
+        vals = [rng.choice(CONTEXT_FLOATS) if rng.chance(0.8) else rng.random() * 10 ** rng.randint(-6, 6) for _ in range(n)]
+        tuples[key] = [x.hex() for x in vals]
+        return ["fntuple", f, key, [x.hex() for x in vals]]
+
+    def tree(d):
+        if d == 0:
+            return rng.weighted([(cnum, 4), (name, 3), (tup, 1)])()
+        c = rng.weighted([("+", 3), ("-", 2), ("*", 4), ("/", 1.5), ("neg", 0.5), ("leaf", 2)])
+        if c == "leaf": return tree(0)
+        if c == "neg": return ["neg", tree(d - 1)]
+        if c == "/": return ["bin", "/", tree(d - 1), cnum() if rng.chance(0.6) else name()]
+        return ["bin", c, tree(d - 1), tree(d - 1)]
+    rhs = tree(rng.randint(0, 2))
+    if rng.chance(0.7):
+        # a product / quotient on top: `-(lhs)+rhs` then performs exactly the operations of `rhs - lhs` (class F, bit-exact)
+        rhs = ["bin", rng.choice(["*", "*", "/"]), rhs, cnum()] if rng.chance(0.5) else ["bin", "*", cnum(), rhs]
+    if rhs[0] not in ("cnum",) and "cnum" not in json.dumps(rhs) and "fntuple" not in json.dumps(rhs):
+        rhs = ["bin", "*", cnum(), rhs]
+    eqs = [{"kind": "T", "descr": "", "dyn": ["eq", ["name", "x", 0], rhs], "steady": None if rng.chance(0.7) else ["eq", ["name", "x", 0], cnum()]},
+           {"kind": "T", "descr": "", "dyn": ["eq", ["name", "y", 0], ["bin", "*", ["name", "a", 0], ["name", "y", -1]]], "steady": None}]
+    sm = {"decls": decls, "decl_groups": [], "family_tokens": [], "eqs": eqs, "eq_groups": [], "subs": [], "logset": [], "features": []}
+    data = L.gen_data(rng.fork("data"), sm, T0, T0 - 1)
+    variants = []
+    for v in range(2):
+        src, spec, lc, feats, used = L.Renderer(rng.fork(f"render{v}"), sm, plain=(v == 0)).render()
+        spec = dict(spec, floats=dict(floats), tuples=dict(tuples), numpy_scalars=(v == 1))
+        variants.append((src, spec, lc, feats, used))
+    return {"sm": sm, "data": data, "t": T0, "variants": variants, "lean": False}
+
+
+def run_context_values_stream(ctx: Ctx, n: int):
+    rng = ctx.rng.fork("context-values")
+    for i in range(n):
+        case = gen_context_case(rng.fork(i))
+        check_model_case(ctx, case, None, value_site="contextual-expression-value")
+        ctx.count("context-value-models")
+        ctx.nontriv(("ctxval", json.dumps(case["sm"]["eqs"][0]["dyn"][2])[:40]))
+
+
+# ---------------------------------------------------------------------------------------
 # entry points
 # ---------------------------------------------------------------------------------------
 
@@ -710,6 +794,7 @@ def run(ctx: Ctx):
     run_corpus(ctx)
     run_tables(ctx)
     run_functions_stream(ctx, ctx.n(8, 120))
+    run_context_values_stream(ctx, ctx.n(150, 3000))
     run_prep_stream(ctx, ctx.n(2500, 60000))
     run_model_stream(ctx, ctx.n(450, 14000))
 
@@ -725,6 +810,7 @@ def search(ctx: Ctx, seeds):
         elif isinstance(c, dict) and "source" in c and "sm" in c:
             pass
     run_functions_stream(ctx, 40)
+    run_context_values_stream(ctx, 1500)
     run_prep_stream(ctx, 6000, with_model=False)
     run_model_stream(ctx, 1200, with_model=False)
 
